@@ -266,17 +266,24 @@ def impl_factory(case, interval, duration):
 
 
 def impl_factory_env(case, interval, duration):
-    """a FactoryPool under a scripted environment; the state is sampled shortly after every boundary"""
+    """a FactoryPool under a scripted environment: between two boundaries the environment acts once; the
+    state is recorded after its action and again shortly after the next boundary"""
     from cobald.composite.factory import FactoryPool
+    from . import C15
     made = []
+    spawned = [0]
 
     def factory():
         c = RecPool(1, 1, 1, 1, name="child%d" % len(made))
+        c.cid = 1000 + spawned[0]
+        spawned[0] += 1
         made.append(c)
         return c
 
     fp = FactoryPool(factory=factory, interval=float(interval))
-    err, samples = [], []
+    fp._vh_spawned = spawned
+    err, samples, trace = [], [], []
+    obs = [C15.snap(fp, None)]
     rnd = __import__("random").Random(json.dumps(case["script"]))
 
     async def runner():
@@ -290,44 +297,60 @@ def impl_factory_env(case, interval, duration):
     async def env():
         await trio.sleep(float(interval) / 2)
         for act in case["script"]:
-            active = sorted(fp._hatchery, key=lambda c: c.name)
+            active = sorted(fp._hatchery, key=lambda c: c.cid)
+            op = None
             if act == "inc":
                 fp.demand = fp.demand + 1
+                op = ["D", wire(F(fp.demand))]
             elif act == "dec" and fp.demand >= 1:
                 fp.demand = fp.demand - 1
+                op = ["D", wire(F(fp.demand))]
             elif act == "disable" and active:
-                rnd.choice(active).demand = 0
+                c = rnd.choice(active)
+                c.demand = 0
+                op = ["c", c.cid, 3, "0/1"]
             elif act == "halve" and active:
                 c = rnd.choice(active)
                 c.demand = F(c.demand) / 2
-            await trio.sleep(float(interval))
-
-    async def observer():
-        await trio.sleep(float(interval) * 1.25)
-        while True:
-            act = list(fp._hatchery)
+                op = ["c", c.cid, 3, wire(F(c.demand))]
+            del active
+            if op is not None:
+                trace.append(op)
+                obs.append(C15.snap(fp, None))
+            order = [c.cid for c in fp._hatchery]
+            await trio.sleep(float(interval) * 0.75)      # the boundary lies in between
+            trace.append(["adj", order])
+            obs.append(C15.snap(fp, None) if not err else "error")
+            act_now = list(fp._hatchery)
             samples.append({"t": trio.current_time(), "request": canon(F(fp.demand)),
-                            "active_demand": canon(sum((F(c.demand) for c in act), F(0))),
+                            "active_demand": canon(sum((F(c.demand) for c in act_now), F(0))),
                             "active_supply": canon(F(fp.supply)),
-                            "idle_active": sum(1 for c in act if c.demand <= 0),
+                            "idle_active": sum(1 for c in act_now if c.demand <= 0),
                             "both": len(set(fp._hatchery) & set(fp._mortuary)), "made": len(made)})
-            await trio.sleep(float(interval))
+            del act_now
+            if err:
+                break
+            await trio.sleep(float(interval) * 0.25)
 
     async def main():
         with trio.move_on_after(duration):
             async with trio.open_nursery() as nursery:
-                nursery.start_soon(env)
-                nursery.start_soon(observer)
                 nursery.start_soon(runner)
+                await trio.sleep(0)
+                await env()
+                nursery.cancel_scope.cancel()
 
     trio.run(main, clock=trio.testing.MockClock(autojump_threshold=0))
     return {"ctor": "ok", "events": [], "step_times": [], "demands": [], "error": err[0] if err else None,
-            "target_writes": [], "init": {}, "samples": samples}
+            "target_writes": [], "init": {}, "samples": samples, "trace": trace, "obs": obs}
 
 
 def line(case, o):
-    if o.get("ctor") != "ok" or case["kind"] == "factory_env":
+    if o.get("ctor") != "ok":
         return None
+    if case["kind"] == "factory_env":
+        return {"kind": "factory_env", "children": [], "ops": o["trace"],
+                "factory": [{"id": 0, "supply": "1/1", "util": "1/1", "alloc": "1/1", "demand": "1/1"}]}
     kind = case["kind"]
     base = {"interval": case["interval"], "pre": kind == "factory", "events": o["events"]}
     if kind == "factory":
@@ -344,6 +367,8 @@ def line(case, o):
 def expect(case, o, m):
     if "driver_error" in m:
         return o, m
+    if case["kind"] == "factory_env":
+        return o["obs"], m.get("obs")
     a = {"step_times": o["step_times"], "demands": o["demands"] if case["kind"] != "factory" else []}
     return a, {"step_times": m["step_times"], "demands": m["demands"]}
 
